@@ -195,6 +195,8 @@ class Folder:
         if isinstance(e, ast.BinOp):
             l, r = self.fold(e.left), self.fold(e.right)
             if isinstance(e.op, ast.Div):
+                if isinstance(l, Abstract) or isinstance(r, Abstract):
+                    return l / r  # e.g. path / name
                 if isinstance(l, float) or isinstance(r, float):
                     return l / r
                 return Fraction(l) / Fraction(r)
@@ -244,7 +246,12 @@ class Folder:
         if isinstance(e, ast.IfExp):
             return self.fold(e.body) if self.fold(e.test) else self.fold(e.orelse)
         if isinstance(e, (ast.Tuple, ast.List)):
-            vals = [self.fold(x) for x in e.elts]
+            vals = []
+            for x in e.elts:
+                if isinstance(x, ast.Starred):
+                    vals.extend(list(self.fold(x.value)))
+                else:
+                    vals.append(self.fold(x))
             return tuple(vals) if isinstance(e, ast.Tuple) else vals
         if isinstance(e, ast.Set):
             return frozenset(self.fold(x) for x in e.elts)
@@ -428,6 +435,17 @@ class Folder:
         args = e.args
         if any(isinstance(a, ast.Starred) for a in args):
             return self._call_starred(e)
+        if isinstance(e.func, ast.Attribute) and isinstance(e.func.value, ast.Call) and dotted(e.func.value.func) == "super" and not e.func.value.args and self.repo is not None and self.cls is not None:
+            obj = self.env.get("self")
+            if type(obj).__name__ == "AObj":
+                from .absint import _BoundMethod
+
+                mro = self.repo.mro(obj._cls_)
+                if self.cls in mro:
+                    for k in mro[mro.index(self.cls) + 1 :]:
+                        if isinstance(k, ClassInfo) and e.func.attr in k.methods:
+                            return _BoundMethod(obj, k.methods[e.func.attr]).call(self, [self.fold(a) for a in args], {x.arg: self.fold(x.value) for x in e.keywords if x.arg})
+                raise Unfoldable("super().%s is not defined in the repository" % e.func.attr)
         if isinstance(e.func, ast.Attribute) and not e.func.attr.startswith("__"):
             # a method of a rule-defined abstract value, or a non-mutating method of a folded list / set / dict / str
             try:
@@ -436,7 +454,13 @@ class Folder:
                 recv = NotImplemented
             if isinstance(recv, Abstract) and callable(getattr(recv, e.func.attr, None)):
                 kw = {k.arg: self.fold(k.value) for k in e.keywords if k.arg}
-                return getattr(recv, e.func.attr)(*[self.fold(a) for a in args], **kw)
+                vals_ = [self.fold(a) for a in args]
+                try:
+                    return getattr(recv, e.func.attr)(*vals_, **kw)
+                except (ValueError, KeyError, IndexError, FileNotFoundError, ZeroDivisionError) as ex:
+                    from .absint import Raised
+
+                    raise Raised(type(ex).__name__, e)  # what the operation raises in the evaluated program
             if type(recv).__name__ == "AObj":
                 from .absint import aobj_member
 
@@ -540,6 +564,13 @@ class Folder:
                     return int(v)
                 if isinstance(v, bool):
                     return int(v)
+                if isinstance(v, str):
+                    try:
+                        return int(v)
+                    except ValueError:
+                        from .absint import Raised
+
+                        raise Raised("ValueError", e)
                 raise Unfoldable(unparse(e))
             return bool(v)
         if name == "round":
